@@ -1,6 +1,6 @@
 /-
   PINS of property C10: the decision tokens of every item the property is anchored in
-  (properties.jsonl `anchors` + tools/anchor_extra.json), as they were in /repo at 32de816 when the
+  (properties.jsonl `anchors` + tools/anchor_extra.json), as they were in /repo at 770977e when the
   model was validated against the source.  Written by tools/pin_anchors.py; the right-hand sides are
   compared by the kernel with lean/Chrono/Extracted/Anchors.lean, which tools/extractors/anchors.py
   regenerates from /repo's working tree on every check.  A theorem that fails here means: anchored
@@ -73,6 +73,14 @@ theorem src_format_scan_rs_fn_number : C10_src_format_scan_rs_fn_number =
 /-- src/format/scan.rs:fn timezone_offset -/
 theorem src_format_scan_rs_fn_timezone_offset : C10_src_format_scan_rs_fn_timezone_offset =
     ["<", "F", ">", "v1", "&", "str", "v2", "F", "v3", "bool", "v4", "bool", "v5", "bool", "->", "ParseResult", "<", "&", "str", "i32", ">", "F", "FnMut(", "&", "str", "->", "ParseResult", "<", "&", "str", ">", "if", "v3", "if", "Some(", "&", "b'Z'", "|", "&", "b'z'", "v1", "as_bytes(", "first(", "return", "Ok(", "&", "v1", "1", "..", "0", "digits(", "v1", "&", "str", "->", "ParseResult", "<", "u8", "u8", ">", "v6", "v1", "as_bytes(", "if", "v6", "len(", "<", "2", "Err(", "TOO_SHORT", "else", "Ok(", "v6", "0", "v6", "1", "v7", "match", "v1", "chars(", "next(", "Some(", "'+'", "=>", "v1", "&", "v1", "'+'", "len_utf8(", "..", "false", "Some(", "'-'", "=>", "v1", "&", "v1", "'-'", "len_utf8(", "..", "true", "Some(", "'−'", "=>", "if", "!", "v5", "return", "Err(", "INVALID", "v1", "&", "v1", "'−'", "len_utf8(", "..", "true", "Some(", "v8", "=>", "return", "Err(", "INVALID", "None", "=>", "return", "Err(", "TOO_SHORT", "v9", "match", "digits(", "v1", "?", "v10", "b'0'", "..=", "b'9'", "v11", "b'0'", "..=", "b'9'", "=>", "i32", "from(", "v10", "-", "b'0'", "*", "10", "+", "v11", "-", "b'0'", "v8", "=>", "return", "Err(", "INVALID", "v1", "&", "v1", "2", "..", "v1", "consume_colon(", "v1", "?", "v12", "if", "Ok(", "v13", "digits(", "v1", "match", "v13", "v14", "b'0'", "..=", "b'5'", "v15", "b'0'", "..=", "b'9'", "=>", "i32", "from(", "v14", "-", "b'0'", "*", "10", "+", "v15", "-", "b'0'", "b'6'", "..=", "b'9'", "b'0'", "..=", "b'9'", "=>", "return", "Err(", "OUT_OF_RANGE", "v8", "=>", "return", "Err(", "INVALID", "else", "if", "v4", "0", "else", "return", "Err(", "TOO_SHORT", "v1", "match", "v1", "len(", "v16", "if", "v16", ">=", "2", "=>", "&", "v1", "2", "..", "0", "=>", "v1", "v8", "=>", "return", "Err(", "TOO_SHORT", "v17", "v9", "*", "3600", "+", "v12", "*", "60", "Ok(", "v1", "if", "v7", "-", "v17", "else", "v17"] := by decide +kernel
+
+/-- src/offset/fixed.rs:impl Offset for FixedOffset -/
+theorem src_offset_fixed_rs_impl_Offset_for_FixedOffset : C10_src_offset_fixed_rs_impl_Offset_for_FixedOffset =
+    ["Offset", "for", "FixedOffset", "fix(", "&", "self", "->", "FixedOffset", "*", "self"] := by decide +kernel
+
+/-- src/offset/utc.rs:impl Offset for Utc -/
+theorem src_offset_utc_rs_impl_Offset_for_Utc : C10_src_offset_utc_rs_impl_Offset_for_Utc =
+    ["Offset", "for", "Utc", "fix(", "&", "self", "->", "FixedOffset", "FixedOffset", "east_opt(", "0", "unwrap("] := by decide +kernel
 
 /-- callee src/datetime/mod.rs:fn from_naive_utc_and_offset -/
 theorem callee_src_datetime_mod_rs_fn_from_naive_utc_and_offset : C10_callee_src_datetime_mod_rs_fn_from_naive_utc_and_offset =
